@@ -656,10 +656,19 @@ func TestVerifC09MultiNode(t *testing.T) {
 	ctx := context.Background()
 	names := []corev1.ResourceName{extension.BatchCPU, extension.BatchMemory, extension.MidCPU, extension.MidMemory}
 	n := h.N(300, 3000)
-	for idx := 0; idx < n; idx++ {
+	// thorough tier only: after the random cases an EXHAUSTIVE small-scope stream — 2 nodes, one round; cluster cap
+	// {nil, 20 %} x nodeConfigs entry {none, pool a without cap, pool a cap 50 %, pool a cap -5 (invalid)} x per node
+	// (pool label {none, a} x annotation {absent, threshold only, cap 80 %}) x reconcile order {AB, BA, ABA}
+	nExh := h.N(0, c09mExhN)
+	for idx := 0; idx < n+nExh; idx++ {
 		r := h.Begin(idx)
 		if r == nil {
 			continue
+		}
+		var script *c09mScript
+		if idx >= n {
+			script = c09mScriptOf(idx - n)
+			h.Tag("mexh:case")
 		}
 		c := fake.NewClientBuilder().WithScheme(scheme).
 			WithStatusSubresource(&slov1alpha1.NodeMetric{}).
@@ -686,6 +695,9 @@ func TestVerifC09MultiNode(t *testing.T) {
 			effDegrade = 15
 		}
 		nn := r.Range(2, 3)
+		if script != nil {
+			nn = 2
+		}
 		nodes := make([]*c09mNode, nn)
 		broken := false
 		for i := range nodes {
@@ -697,6 +709,10 @@ func TestVerifC09MultiNode(t *testing.T) {
 				nd.scn.metricKind = 1 + r.Intn(2)
 			}
 			c09mGenMeta(r, nd)
+			if script != nil {
+				nd.scn.metricKind, nd.scn.age = 0, c09hAge(r, effDegrade, false)
+				nd.pool, nd.annoKind, nd.anno, nd.lblCpu, nd.lblMem = script.pool[i], script.annoKind[i], script.anno[i], "", ""
+			}
 			nodes[i] = nd
 			if err := nd.create(ctx, c); err != nil {
 				h.Fail("C09:harness", "cannot create node %d: %v", i, err)
@@ -711,6 +727,9 @@ func TestVerifC09MultiNode(t *testing.T) {
 		}
 		interesting := false
 		rounds := r.Range(2, 4)
+		if script != nil {
+			rounds = 1
+		}
 		for k := 0; k < rounds && !broken; k++ {
 			what := "configmap"
 			if k > 0 {
@@ -722,6 +741,9 @@ func TestVerifC09MultiNode(t *testing.T) {
 			switch what {
 			case "configmap":
 				d := c09mGenDecl(r, degrade, k == 0)
+				if script != nil {
+					d = script.decl(degrade)
+				}
 				h.Tag(fmt.Sprintf("mdecl:kind=%d,entries=%d", d.kind, len(d.entries)))
 				if d.kind == 2 {
 					h.Op("ccfg %s", d.cluster.toks())
@@ -789,6 +811,9 @@ func TestVerifC09MultiNode(t *testing.T) {
 				if k > 0 {
 					order = order[:nn-1]
 				}
+			}
+			if script != nil {
+				order = script.order
 			}
 			for _, i := range order {
 				nd := nodes[i]
@@ -938,4 +963,60 @@ func TestVerifC09MultiNode(t *testing.T) {
 		"unparsable or an empty key) and 0-2 nodeConfigs entries (pool selectors, nil / empty selector, overlays incl. invalid ones); nodes carry a pool label, a strategy annotation " +
 		"(overlay / garbage / absent) and reclaim-ratio labels; 2-4 rounds re-declare the ConfigMap, change one node's metadata or idle, then reconcile the nodes in a random order " +
 		"(one twice / one left out); non-trivial = some node's declared cap differs from a set cluster cap; distinct by op lines")
+}
+
+// ---- exhaustive small-scope stream (thorough tier) ----
+
+const c09mExhN = 2 * 4 * 6 * 6 * 3
+
+type c09mScript struct {
+	clusterCap int // 0 nil 1 20 %
+	entry      int // 0 none 1 pool a, threshold only 2 pool a, cap 50 % 3 pool a, cap -5 (invalid => falls back to the cluster strategy)
+	pool       [2]int
+	annoKind   [2]int
+	anno       [2]c09mStrat
+	order      []int
+}
+
+func c09mScriptOf(e int) *c09mScript {
+	sc := &c09mScript{}
+	sc.clusterCap, e = e%2, e/2
+	sc.entry, e = e%4, e/4
+	for i := 0; i < 2; i++ {
+		sc.pool[i], e = e%2-1, e/2
+		a := e % 3
+		e /= 3
+		sc.anno[i] = c09mNone()
+		switch a {
+		case 1:
+			sc.annoKind[i] = 1
+			sc.anno[i][1], sc.anno[i][2] = 80, 80
+		case 2:
+			sc.annoKind[i] = 1
+			sc.anno[i][3], sc.anno[i][4] = 80, 80
+		}
+	}
+	sc.order = [][]int{{0, 1}, {1, 0}, {0, 1, 0}}[e%3]
+	return sc
+}
+
+func (sc *c09mScript) decl(degrade int64) *c09mDecl {
+	d := &c09mDecl{kind: 2, cluster: c09mNone()}
+	d.cluster[0], d.cluster[5], d.cluster[6] = 1, degrade, 30
+	if sc.clusterCap == 1 {
+		d.cluster[3], d.cluster[4] = 20, 20
+	}
+	if sc.entry > 0 {
+		e := c09mEntry{selKind: 2, selVal: 0, over: c09mNone()}
+		switch sc.entry {
+		case 1:
+			e.over[1], e.over[2] = 70, 70
+		case 2:
+			e.over[3], e.over[4] = 50, 50
+		default:
+			e.over[3], e.over[4] = -5, 50
+		}
+		d.entries = append(d.entries, e)
+	}
+	return d
 }
